@@ -12,11 +12,35 @@ ASSUMPTIONS = [
     "outputs zeros, the descrambler may turn them into LFSR values) and may appear at any position",
     "a data packet = data header packet (type DATA) directly followed by SDP-SDP-SDP-EPF, data-length payload "
     "bytes, CRC-32, END-END-END-EPF (padding: logical idle), or cut short by EDB-EDB-EDB-EPF (aborted DPP)",
+    "data-length is at most 1024 bytes, the SuperSpeed maximum packet size (DataPacketReceiver.MAX_PACKET_SIZE); "
+    "longer announcements are not generated",
     "for a packet whose *header* CRCs are invalid the statement is read conservatively: it must never be reported "
     "good and at most one 'bad' may be reported (the link layer cannot know such a header announced a payload)",
 ]
 
 MAXLEN = 40
+MAXPKT = 1024         # SuperSpeed maximum packet size: the largest data-length a partner may announce
+
+
+def expand_payload(it):
+    """Payload bytes of a packet item.  Short packets carry them literally (``payload``); long ones are described
+    compactly as ``gen`` = [length, mode, seed] (a 1024-element list per packet would exhaust Hypothesis' buffer):
+    mode 0 = bytes of a fixed linear congruential sequence started at ``seed``, 1 = all zero, 2 = all 0xFF,
+    3 = zero except every (seed % 7 + 2)-th byte.  A pure function of the case."""
+    if "gen" not in it:
+        return bytes(it["payload"])
+    L, mode, seed = it["gen"]
+    if mode == 1:
+        return bytes(L)
+    if mode == 2:
+        return b"\xff" * L
+    out = bytearray(L)
+    x = seed & 0x7FFFFFFF
+    for i in range(L):
+        x = (x * 1103515245 + 12345) & 0x7FFFFFFF
+        if mode == 0 or i % (seed % 7 + 2) == 0:
+            out[i] = (x >> 16) & 0xFF
+    return bytes(out)
 
 
 # ---------------------------------------------------------------------------------------- stimulus construction
@@ -32,7 +56,7 @@ def _inv_word(kind, data, ctx_prev, ctx_crc):
 
 def build_packet(it):
     """-> list of (valid, data, ctrl) words, info dict"""
-    payload = bytes(it["payload"])
+    payload = expand_payload(it)
     L = len(payload)
     dw0_hi, dw1_lo, dw2, seq, flags = it["hdr"]
     dw0, dw1, dw2 = R.data_header_dw(L, dw0_hi, dw1_lo, dw2)
@@ -194,8 +218,10 @@ def judge(stream, packets, trace):
         if complete:
             if bytes(got) != p["payload"]:
                 sig = "payload-byte-count" if len(got) != p["L"] else "payload-bytes"
-                return fail(f"{desc}: payload stream carried {len(got)} bytes {bytes(got).hex()} expected "
-                            f"{p['L']} bytes {p['payload'].hex()}", signature=sig)
+                def hx(b):
+                    return b.hex() if len(b) <= 48 else f"{b[:24].hex()}...{b[-8:].hex()}"
+                return fail(f"{desc}: payload stream carried {len(got)} bytes {hx(bytes(got))} expected "
+                            f"{p['L']} bytes {hx(p['payload'])}", signature=sig)
             if p["L"] and t < last_byte_cycle:
                 return fail(f"{desc}: reported in cycle {t}, before the last payload byte (cycle {last_byte_cycle})",
                             signature="report-before-payload-end")
@@ -207,7 +233,8 @@ class DataRxSub(Sub):
     name = "datarx"
     budget = {"quick": 6000, "thorough": 90000}
     shrink_budget = 600
-    rule = ("streams of 1..5 data packets (payload 0..40 bytes, every length mod 4; single-bit corruption of header "
+    rule = ("streams of 1..5 data packets (payload 0..40 bytes, every length mod 4; about one packet in 40 is long: "
+            "1020..1024 (the maximum packet size) weighted, 2^k and 2^k+-1, any length up to 1024; single-bit corruption of header "
             "words / CRC-16 / link control word / payload / CRC-32; aborted DPPs) with not-valid words (zero, random, "
             "CRC-looking, repeated data) inserted at any word position, separated by idle, link commands, non-data "
             "headers, not-valid words or nothing. Oracle: reference parse of the valid words; per packet exactly one "
@@ -226,20 +253,33 @@ class DataRxSub(Sub):
     def strategy(self):
         length = st.one_of(st.integers(0, 8), st.integers(0, MAXLEN), st.sampled_from([0, 1, 2, 3, 4, 5, 8, 12, 13]))
 
+        # long packets (~265 cycles each, so about one packet in 40 = one case in 8): the maximum packet size and
+        # its neighbours (every length mod 4 just below it), powers of two +-1, anything up to the maximum
+        long_length = st.one_of(st.sampled_from([MAXPKT, MAXPKT, MAXPKT - 1, MAXPKT - 2, MAXPKT - 3, MAXPKT - 4]),
+                                st.sampled_from([MAXPKT, 511, 512, 513, 255, 256, 257, 127, 128, 129, 63, 64, 65,
+                                                 1000, 768]),
+                                st.integers(MAXLEN + 1, MAXPKT))
+
         @st.composite
         def packet(draw):
-            L = draw(length)
-            payload = draw(st.lists(st.one_of(st.just(0), bits(8)), min_size=L, max_size=L))
+            is_long = draw(weighted([(0, 39), (1, 1)]))
+            if is_long:
+                L = draw(long_length)
+                body = dict(gen=[L, draw(weighted([(0, 4), (1, 1), (2, 1), (3, 2)])), draw(bits(24))])
+            else:
+                L = draw(length)
+                body = dict(payload=draw(st.lists(st.one_of(st.just(0), bits(8)), min_size=L, max_size=L)))
             nwords = 5 + 1 + (L + 4 + 3) // 4 + 1
             inv = draw(st.lists(st.tuples(
                 st.one_of(st.integers(0, nwords), st.integers(5 + (L // 4), nwords)),   # biased to the CRC end
                 weighted([(1, 5), (2, 2), (3, 1)]), weighted([(0, 3), (1, 3), (2, 2), (3, 1)]), bits(36)).map(list),
                 max_size=3))
-            cor = draw(st.tuples(weighted([(0, 6), (1, 1), (2, 1), (3, 1), (4, 2), (5, 2)]), st.integers(0, 511)))
+            cor = draw(st.tuples(weighted([(0, 6), (1, 1), (2, 1), (3, 1), (4, 2), (5, 2)]),
+                                 st.integers(0, 8 * MAXPKT - 1 if is_long else 511)))
             abort = draw(weighted([(-1, 9), (0, 1), (1, 1)]))
             if abort == 1:
                 abort = draw(st.integers(0, L + 4))
-            return dict(k="dp", payload=payload,
+            return dict(k="dp", **body,
                         hdr=[draw(bits(27)), draw(bits(16)), draw(bits(32)), draw(bits(3)), draw(bits(8))],
                         cor=list(cor), inv=inv, abort=abort)
 
@@ -269,6 +309,8 @@ class DataRxSub(Sub):
         for n, p in enumerate(packets):
             labels.add(f"len%4={p['L'] % 4}" if p["L"] else "zlp")
             labels.add(f"cor={p['ckind']}")
+            if p["L"] > MAXLEN:
+                labels.add("len=max" if p["L"] == MAXPKT else "len>40")
             if p["aborted"]:
                 labels.add("aborted")
             in_dpp = [x for x in p["inv_positions"] if x > 5]
